@@ -331,8 +331,10 @@ def run(P, tier="quick"):
     R_.counts["add_term_sites_reached"] = len(sites_seen)
     nsites = len([c for f in P.lib_functions() if f.file == FILE and f.body is not None for c in f.calls("add_term")])
     R_.counts["add_term_sites"] = nsites
-    if nsites < 25:
-        raise AnalysisBroken("R30: only %d add_term call sites in %s (25 confirmed by hand)" % (nsites, FILE))
+    # 25 call sites today; merging the unity / non-unity pair of a family into one call is a legitimate refactoring
+    # (20 families remain).  The real guard is below: every site must be reached and every equation must match.
+    if nsites < 18:
+        raise AnalysisBroken("R30: only %d add_term call sites in %s (25 today, at least 18 expected)" % (nsites, FILE))
     if len(sites_seen) < nsites and not R_.findings:
         R_.violated(Finding("R30", PROPS, FILE, "_vnacal_new_build_equation_terms", "unreached-sites",
                             "%d of %d add_term call sites are never reached for any type and shape <= 4" % (nsites - len(sites_seen), nsites), 0))
